@@ -125,7 +125,7 @@ InitCase ==
 
 Pending == [t |-> "pending"]
 Init == InitCase /\ res = Pending
-Parse == res = Pending /\ res' = Norm(Erase(case.tree)) /\ UNCHANGED case
+Parse == res = Pending /\ res' = Canon(case.tree) /\ UNCHANGED case
 Next == Parse
 Spec == Init /\ [][Next]_vars
 
